@@ -438,17 +438,49 @@ func c14r3(c *core.Ctx) {
 				}
 				n++
 				// must be filepath.Join(...)/path.Join or name+ext concatenation of parameters
-				okj := false
-				for _, o := range core.Origins(pathArg) {
-					if callee := core.CalleeOfValue(o); callee != nil && callee.Pkg != nil && (callee.Pkg.Pkg.Path() == "path/filepath" || callee.Pkg.Pkg.Path() == "path") && callee.Name() == "Join" {
-						okj = true
-					} else if bo, ok := o.(*ssa.BinOp); ok && bo.Op == token.ADD && !strings.HasPrefix(name, "os.") {
-						okj = true // name + extension: fs.FS paths are rooted by the FS itself; a host path is never glued together (an empty root would turn into "/")
-					} else {
-						okj = false
-						break
+				var joined func(v ssa.Value, in *ssa.Function, depth int) bool
+				joined = func(v ssa.Value, in *ssa.Function, depth int) bool {
+					okj := false
+					for _, o := range core.Origins(v) {
+						if callee := core.CalleeOfValue(o); callee != nil && callee.Pkg != nil && (callee.Pkg.Pkg.Path() == "path/filepath" || callee.Pkg.Pkg.Path() == "path") && callee.Name() == "Join" {
+							okj = true
+						} else if bo, ok := o.(*ssa.BinOp); ok && bo.Op == token.ADD && !strings.HasPrefix(name, "os.") {
+							okj = true // name + extension: fs.FS paths are rooted by the FS itself; a host path is never glued together (an empty root would turn into "/")
+						} else if prm, ok := o.(*ssa.Parameter); ok && depth < 2 && in.Signature.Recv() == nil {
+							// a helper that is handed the file name: every caller in the package hands it a joined one
+							idx, sites := -1, 0
+							for i, q := range in.Params {
+								if q == prm {
+									idx = i
+								}
+							}
+							all := idx >= 0
+							for g := range p.AllFunctions() {
+								if g.Pkg != sp || g.Blocks == nil {
+									continue
+								}
+								for _, gb := range g.Blocks {
+									for _, gin := range gb.Instrs {
+										if gc, ok := gin.(ssa.CallInstruction); ok && gc.Common().StaticCallee() == in && idx < len(gc.Common().Args) {
+											sites++
+											if !joined(gc.Common().Args[idx], g, depth+1) {
+												all = false
+											}
+										}
+									}
+								}
+							}
+							if !all || sites == 0 {
+								return false
+							}
+							okj = true
+						} else {
+							return false
+						}
 					}
+					return okj
 				}
+				okj := joined(pathArg, f, 0)
 				// and no Abs / EvalSymlinks / Clean tricks: the joined parts are parameters or fields
 				c.Check(okj, core.SSAName(f)+"|"+name, p.Pos(in.Pos()), "the file name given to "+name+" is the join of the importer's source directory and the module name plus extension")
 			}
